@@ -95,6 +95,8 @@ func invalidProbes(allArities bool) func(x *drv.World) []model.Op {
 				model.Op{K: model.OpInvalid, Inv: drv.InvStale, N: drv.MUnsafeHas, E: e, Cs: ct.Of(ct.P)},
 				model.Op{K: model.OpInvalid, Inv: drv.InvStale, N: drv.MUnsafeGetRel, E: e, Cs: ct.Of(ct.R1)},
 			)
+			// Event.Emit is deliberately not probed: without an observer for the event type it returns before
+			// looking at the entity, and nothing documents it as a checked operation
 		}
 		if allArities {
 			for _, t := range api.MapTuples {
